@@ -26,6 +26,11 @@ func ruleC05(w *World) {
 	// R5: every point stored in a public-key object comes from a G2-closed producer
 	w.floor("C05.R5", 8)
 	w.ruleG2Provenance("C05.R5", a)
+	// R9: "BLS signature parsing inside aggregation": every signature that enters the flat buffer handed to C has exactly
+	// the signature length (per element, not in total: C re-frames the buffer every 48 bytes), and the documented error
+	// classes are kept (= C04.R2 on AggregateBLSSignatures)
+	w.floor("C05.R9", 2)
+	w.importObligations(ruleC04, "C04.R2", "C05.R9", func(o Obl) bool { return strings.HasPrefix(o.Key, "AggregateBLSSignatures/") })
 	// R8: the decoders are total — "reject or accept" leaves no room for a panic: the buffer-extent obligations of C09.R1
 	// for every function reachable from the exported decoders (pointer &b[0] handed to C only for a slice proved non-empty
 	// and long enough, requirements of unexported readers propagated up to DecodePrivateKey / DecodePublicKey(Compressed))
